@@ -29,7 +29,13 @@ import (
 // H is the harness.
 type H struct{}
 
-func (H) Reset() { log.VerifSimReset() }
+func (H) Reset() {
+	log.VerifSimReset()
+	// The logger is not started in this harness: nobody drains its buffer. Once the buffer is full every further
+	// line parks a goroutine, and thousands of them make a long run (multi-megabyte content, every fault point)
+	// crawl. Only critical lines pass.
+	log.SetLogLevel(log.CriticalLevel)
+}
 
 func (H) Tune(prop string, plan any, cfg *simrt.Config) {
 	cfg.MaxSteps = 2000000
@@ -317,10 +323,41 @@ func (H) Execute(prop string, plan any, rc *simkit.RunCtx) {
 		name string
 	}
 	var cases []faultCase
-	for k := 0; k < nmut; k++ {
+	// The k-th mutating call is a fault point. With multi-megabyte content most of them are writes of one more chunk
+	// to the same temporary file; beyond 60 points all calls other than writes are kept together with the first,
+	// the last and evenly spaced writes (40 of them), otherwise a single case costs minutes.
+	var points []int
+	{
+		var writeIdx []int
+		k := 0
+		for _, c := range calls {
+			if !c.Mut {
+				continue
+			}
+			if c.Op == "write" {
+				writeIdx = append(writeIdx, k)
+			} else {
+				points = append(points, k)
+			}
+			k++
+		}
+		if nmut <= 60 || len(writeIdx) <= 40 {
+			points = points[:0]
+			for k := 0; k < nmut; k++ {
+				points = append(points, k)
+			}
+		} else {
+			for j := 0; j < 40; j++ {
+				points = append(points, writeIdx[j*(len(writeIdx)-1)/39])
+			}
+			sort.Ints(points)
+			rc.Probe("fault-points-sampled")
+		}
+	}
+	for _, k := range points {
 		cases = append(cases, faultCase{simfs.Plan{CrashAt: k, ErrAt: -1, ShortAt: -1}, fmt.Sprintf("crash@%d", k)})
 	}
-	for k := 0; k < nmut; k++ {
+	for _, k := range points {
 		for _, en := range []syscall.Errno{syscall.ENOSPC, syscall.EIO} {
 			cases = append(cases, faultCase{simfs.Plan{CrashAt: -1, ErrAt: k, Errno: en, ShortAt: -1}, fmt.Sprintf("err@%d(%v)", k, en)})
 		}
@@ -496,6 +533,27 @@ func readState(p *FSPlan, e *fsEnv) (string, bool) {
 		return sb.String(), true
 	}
 	fi, serr := os.Stat(e.dest)
+	if serr == nil && fi.Size() > 512<<10 {
+		// a multi-megabyte file, read by several readers at every step of every fault case: sample it (size, head,
+		// tail and evenly spaced blocks; the content is position dependent, so a missing or shifted part shows)
+		f, err := os.Open(e.dest)
+		if err != nil {
+			return "", false
+		}
+		defer f.Close()
+		var h uint64 = 1469598103934665603
+		buf := make([]byte, 4096)
+		n := fi.Size()
+		for k := int64(0); k < 16; k++ {
+			off := (n - int64(len(buf))) * k / 15
+			m, _ := f.ReadAt(buf, off)
+			h = h*1099511628211 ^ simpleHash(buf[:m])
+		}
+		if p.Prim == "fetch" {
+			return fmt.Sprintf("%d:s%x", n, h), true
+		}
+		return fmt.Sprintf("%v:%d:s%x", fi.Mode().Perm(), n, h), true
+	}
 	b, err := os.ReadFile(e.dest)
 	if err != nil || serr != nil {
 		return "", false
